@@ -514,7 +514,7 @@ def replay(cand):
 
 MANIFEST_ENTRY = {
     "engine": "symx",
-    "technique": "bounded symbolic execution (symx/z3, nonlinear real arithmetic) of Binner.dohist/calc_stats/_hist_by_num/_merge_last and histogram(more=True) with data, second variable, weights, limits and bin size as solver variables; bin membership from the definition, every per-bin statistic compared with its direct formula (roots on squares), occupancy pattern, low/high and sentinel asserted per path; counterexamples replayed on the real library (both engines)",
+    "technique": "bounded symbolic execution (symx/z3, nonlinear real arithmetic) of Binner.dohist/calc_stats/_hist_by_num/_merge_last and histogram(more=True) with data, second variable, weights, limits and bin size as solver variables; bin membership from the definition, every per-bin statistic compared with its direct formula (roots on squares), occupancy pattern, low/high and sentinel asserted per path; one Binner reused for two binnings compared with a fresh one (non-interference); the weighted deviation of tied values over z3's FloatingPoint sort (half precision) for NaN-freedom; counterexamples replayed on the real library (both engines)",
     "text": "On every feasible path within the size bound: bin membership follows the definition, edges/centres are min+i*binsize (+1/2), mean/std/median and (n>=2) the standard errors of x and y equal direct computation from the members, whist and the weighted mean/deviation/both errors likewise, empty bins carry -9999; equal-occupancy bins hold exactly nperbin consecutive sorted data (short last bin merged on request), low/high are the extreme members and rev indexes the original array.",
     "note": "N<=3/4, <=3 bins, nperbin 1..N; pure-Python engine (C05 proves the engines identical); single-member bins: error columns unconstrained; floats as reals except one kernel: the weighted deviation of a bin of two tied values is never NaN in IEEE half precision (its size is not decided)",
 }
